@@ -791,7 +791,23 @@ type Memo = Vec<Mutex<HashMap<[u8; 32], ([u8; 32], [u8; 32], String)>>>;
 /// In state `w`: for every multiset, all distinct permutations give equal canonical states and
 /// equal following passes.
 fn oracle(cx: &Ctx, w: &World, xs: &[Vec<Sym>], memo: &Memo, path: &[String], out: &mut Out) {
-    for x in xs {
+    // `World` holds a `Cell` (not `Sync`): every parallel task owns its clone.
+    let tasks: Vec<(World, &Vec<Sym>)> = xs.iter().map(|x| (w.clone(), x)).collect();
+    let outs: Vec<Out> = tasks
+        .into_par_iter()
+        .map(|(w, x)| {
+            let mut out = Out::default();
+            oracle_one(cx, &w, x, memo, path, &mut out);
+            out
+        })
+        .collect();
+    for o in outs {
+        out.merge(o);
+    }
+}
+
+fn oracle_one(cx: &Ctx, w: &World, x: &Vec<Sym>, memo: &Memo, path: &[String], out: &mut Out) {
+    {
         let perms = distinct_perms(x);
         let mut first: Option<([u8; 32], [u8; 32], String, Vec<Sym>)> = None;
         let mut effective = 0usize;
@@ -815,15 +831,20 @@ fn oracle(cx: &Ctx, w: &World, xs: &[Vec<Sym>], memo: &Memo, path: &[String], ou
             let shard = &memo[(fh[0] as usize) % memo.len()];
             let cached = shard.lock().unwrap().get(&fh).cloned();
             let (canon, tick, label) = match cached {
-                Some(c) => {
-                    out.c("oracle_pass_memo_hits");
-                    c
-                }
+                Some(c) => c,
                 None => {
-                    let canon = canon_fp(cx, &w2.rt, &full, out);
-                    let obs = step_tick(cx, &mut w2, out);
+                    // Two tasks may race to the same end state: only the one whose insert wins reports
+                    // its observations, so every count is a function of the set of distinct states.
+                    let mut tmp = Out::default();
+                    let canon = canon_fp(cx, &w2.rt, &full, &mut tmp);
+                    let obs = step_tick(cx, &mut w2, &mut tmp);
                     let v = (canon, obs.digest, obs.label);
-                    shard.lock().unwrap().insert(fh, v.clone());
+                    let mut g = shard.lock().unwrap();
+                    if !g.contains_key(&fh) {
+                        g.insert(fh, v.clone());
+                        drop(g);
+                        out.merge(tmp);
+                    }
                     v
                 }
             };
@@ -1330,7 +1351,7 @@ fn inbox_phase(r: &Report) {
                 }
             }
         },
-        || r.over_budget_frac(0.25),
+        || r.over_budget_frac(if r.quick() { 0.25 } else { 0.03 }),
     );
     r.add_states(stats.states);
     r.add_transitions(stats.transitions);
@@ -1369,17 +1390,15 @@ fn configs(r: &Report) -> Vec<Config> {
         v.push(single_wl(0, Pol::Budgeted(1), Pol::Budgeted(1), 2));
         v.push(two_wl(Pol::Budgeted(1), Pol::AcceptAll, 2));
     } else {
+        // all policies on either focus head, then two-worldline routings; the wall budget is shared
+        // fairly (a configuration that exhausts its share reports the depth it completed)
         for focus in [1u8, 0u8] {
             for p in POLICIES {
-                for other in [Pol::AcceptAll, Pol::Budgeted(1)] {
-                    v.push(single_wl(focus, p, other, 5));
-                }
+                v.push(single_wl(focus, p, if focus == 0 { Pol::Budgeted(1) } else { Pol::AcceptAll }, 4));
             }
         }
         for p1 in POLICIES {
-            for p2 in [Pol::AcceptAll, Pol::Budgeted(1), Pol::KindFilter] {
-                v.push(two_wl(p1, p2, 4));
-            }
+            v.push(two_wl(p1, if p1 == Pol::AcceptAll { Pol::Budgeted(1) } else { Pol::AcceptAll }, 3));
         }
     }
     v
@@ -1420,60 +1439,74 @@ fn main() {
     let cfgs = configs(&r);
     let max_x = r.pick(3, 5);
     let mut per_cfg = Vec::new();
-    let ncfg = cfgs.len();
-    for (ci, cfg) in cfgs.into_iter().enumerate() {
-        let keys: Vec<WriterHeadKey> = cfg.heads.iter().map(|(w, h, _)| head_key(*w, *h)).collect();
-        let cx = Ctx {
-            routes: route_table(cfg.worldlines, &keys),
-            sched: SchedulerKind::Radix,
-            cfg,
-        };
-        // reduced alphabet: first occurrence in the BFS form, the retry in the other form
-        let f1 = |i: u8| cx.cfg.f1(i);
-        let mut xs = multisets(
-            &|i| {
-                vec![
-                    vec![Sym { intent: i, form: f1(i) }],
-                    vec![
-                        Sym { intent: i, form: f1(i) },
-                        Sym { intent: i, form: 1 - f1(i) },
-                    ],
-                ]
-            },
-            max_x,
-        );
-        if r.thorough() {
-            // full form alphabet for small multisets
-            let full = multisets(
+    // quick: up to 90% of the 240 s cap; thorough: ~20 min of the 3600 s cap.  Configurations run
+    // concurrently, so a wall cap stops all of them at the depth each has completed.
+    let frac = if r.quick() { 0.9 } else { 0.33 };
+    let thorough = r.thorough();
+    let results: Vec<(Value, String, usize, usize, Option<Vec<String>>, BfsResult)> = cfgs
+        .into_par_iter()
+        .map(|cfg| {
+            let keys: Vec<WriterHeadKey> =
+                cfg.heads.iter().map(|(w, h, _)| head_key(*w, *h)).collect();
+            let cx = Ctx {
+                routes: route_table(cfg.worldlines, &keys),
+                sched: SchedulerKind::Radix,
+                cfg,
+            };
+            // reduced alphabet: first occurrence in the BFS form, the retry in the other form
+            let f1 = |i: u8| cx.cfg.f1(i);
+            let mut xs = multisets(
                 &|i| {
-                    let (p, e) = (Sym { intent: i, form: 0 }, Sym { intent: i, form: 1 });
-                    vec![vec![p], vec![e], vec![p, p], vec![p, e], vec![e, e]]
+                    vec![
+                        vec![Sym { intent: i, form: f1(i) }],
+                        vec![
+                            Sym { intent: i, form: f1(i) },
+                            Sym { intent: i, form: 1 - f1(i) },
+                        ],
+                    ]
                 },
-                3,
+                max_x,
             );
-            for m in full {
-                if !xs.contains(&m) {
-                    xs.push(m);
+            if thorough {
+                // full form alphabet for small multisets
+                let full = multisets(
+                    &|i| {
+                        let (p, e) = (Sym { intent: i, form: 0 }, Sym { intent: i, form: 1 });
+                        vec![vec![p], vec![e], vec![p, p], vec![p, e], vec![e, e]]
+                    },
+                    3,
+                );
+                for m in full {
+                    if !xs.contains(&m) {
+                        xs.push(m);
+                    }
                 }
             }
-        }
-        // fair share of the wall budget per configuration
-        let frac = 0.25 + 0.65 * ((ci + 1) as f64 / ncfg as f64);
-        let res = explore(&r, &cx, &xs, &memo, frac);
+            let res = explore(&r, &cx, &xs, &memo, frac);
+            (
+                cx.cfg.to_json(),
+                cx.cfg.name.clone(),
+                cx.cfg.depth,
+                xs.len(),
+                xs.last().map(|x| x.iter().map(|s| sym_name(*s)).collect::<Vec<_>>()),
+                res,
+            )
+        })
+        .collect();
+    for (ci, (cj, name, depth, nxs, example, res)) in results.into_iter().enumerate() {
         r.add_states(res.states);
         r.add_transitions(res.transitions);
         r.add_traces(res.transitions);
         if ci < 4 {
-            r.sample(json!({"phase": "runtime", "config": cx.cfg.to_json(), "multisets": xs.len(),
-                "example_multiset": xs.last().map(|x| x.iter().map(|s| sym_name(*s)).collect::<Vec<_>>()),
-                "states": res.states, "transitions": res.transitions}));
+            r.sample(json!({"phase": "runtime", "config": cj, "multisets": nxs,
+                "example_multiset": example, "states": res.states, "transitions": res.transitions}));
         }
-        per_cfg.push(json!({"config": cx.cfg.name, "depth_completed": res.max_depth, "depth": cx.cfg.depth,
-            "states": res.states, "transitions": res.transitions, "multisets_per_state": xs.len(), "capped": res.capped}));
+        per_cfg.push(json!({"config": name, "depth_completed": res.max_depth, "depth": depth,
+            "states": res.states, "transitions": res.transitions, "multisets_per_state": nxs, "capped": res.capped}));
         if res.capped {
             r.cap_hit(&format!(
-                "runtime BFS of configuration {} stopped at depth {} of {}",
-                cx.cfg.name, res.max_depth, cx.cfg.depth
+                "runtime BFS of configuration {name} stopped at depth {} of {depth}",
+                res.max_depth
             ));
         }
     }
